@@ -802,3 +802,88 @@ def _(repo):
            and "lambda t, dx, params: u(t, dx, params)[dim_to_apply] - f(t, dx)" in ast.unparse(dn))
     out.append(f"Definition gen_dirichlet_wiring : bool := {'true' if ok2 else 'false'}.")
     return "\n".join(out)
+
+
+# =============================================================== G_derivkeys (C06)
+DK = "jinns/parameters/_derivative_keys.py"
+header("G_derivkeys", ZHDR)
+
+
+@anchor("G_derivkeys", "mask_of_str")
+def _(repo):
+    f = find_func(parse(repo, DK), "_get_masked_parameters")
+    br = one([s for s in f.body if isinstance(s, ast.If) and ast.unparse(s.test) == "isinstance(params, Params)"], "Params branch")
+    src0 = ast.unparse(one(assigns(wrap(br.body), "diff_params"), "diff_params"))
+    if not src0.startswith("jax.tree.map(lambda x: True, params"):
+        raise Untranslatable("initial mask is not all-True")
+    table = {}
+    for s in br.body:
+        if isinstance(s, ast.If) and isinstance(s.test, ast.Compare) and ast.unparse(s.test.left) == "derivative_mask_str":
+            key = s.test.comparators[0].value
+            r = ast.unparse(one(returns(wrap(s.body)), "return"))
+            if r == "diff_params":
+                table[key] = ("true", "true")
+            elif r == "eqx.tree_at(lambda p: p.nn_params, diff_params, False)":
+                table[key] = ("false", "true")
+            elif r == "eqx.tree_at(lambda p: p.eq_params, diff_params, jax.tree.map(lambda x: False, params.eq_params))":
+                table[key] = ("true", "false")
+            else:
+                raise Untranslatable("unknown mask construction " + r)
+    if not any(isinstance(s, ast.Raise) for s in br.body):
+        raise Untranslatable("other strings are not rejected")
+    code = {"both": 0, "eq_params": 1, "nn_params": 2}
+    if set(table) != set(code):
+        raise Untranslatable("recognised strings changed: " + str(sorted(table)))
+    arms = " ".join(f"| {code[k]}%nat => Some ({table[k][0]}, {table[k][1]})" for k in sorted(table, key=lambda k: code[k]))
+    sd = find_func(parse(repo, DK), "_set_derivatives_")
+    ssrc = ast.unparse(sd)
+    if "jax.lax.cond(d, lambda p: p, jax.lax.stop_gradient, p)" in ssrc:
+        keep = "true"
+    elif "jax.lax.cond(d, jax.lax.stop_gradient, lambda p: p, p)" in ssrc:
+        keep = "false"
+    else:
+        raise Untranslatable("_set_derivatives_ changed")
+    return ("(* string code: 0 = \"both\", 1 = \"eq_params\", 2 = \"nn_params\"; result = (mask of nn_params, mask of every eq_params key) *)\n"
+            f"Definition gen_mask_of_str (code : nat) : option (bool * bool) := match code with {arms} | _ => None end.\n"
+            f"(* _set_derivatives: a True mask entry keeps the leaf differentiable, False applies stop_gradient *)\n"
+            f"Definition gen_true_means_differentiate : bool := {keep}.")
+
+
+@anchor("G_derivkeys", "defaults")
+def _(repo):
+    mod = parse(repo, DK)
+    out = []
+    code = {"both": 0, "eq_params": 1, "nn_params": 2}
+    for cls, terms in (("DerivativeKeysODE", ["dyn_loss", "observations", "initial_condition"]),
+                       ("DerivativeKeysPDEStatio", ["dyn_loss", "observations", "boundary_loss", "norm_loss"]),
+                       ("DerivativeKeysPDENonStatio", ["initial_condition"])):
+        pi = find_func(mod, "__post_init__", cls)
+        for t in terms:
+            v = one(assigns(pi, f"self.{t}"), f"default of {cls}.{t}")
+            if not (isinstance(v, ast.Call) and ast.unparse(v.func) == "_get_masked_parameters" and isinstance(v.args[0], ast.Constant) and ast.unparse(v.args[1]) == "params"):
+                raise Untranslatable("default changed: " + ast.unparse(v))
+            out.append(f"Definition gen_default_{cls}_{t} : nat := {code[v.args[0].value]}.")
+    return "\n".join(out)
+
+
+@anchor("G_derivkeys", "term_masks")
+def _(repo):
+    """which derivative_keys field each loss term is evaluated with"""
+    out = []
+    want = {"LossODE": {"dynamic_loss_apply": "dyn_loss", "observations_loss_apply": "observations"},
+            "LossPDEStatio": {"dynamic_loss_apply": "dyn_loss", "normalization_loss_apply": "norm_loss", "boundary_condition_apply": "boundary_loss", "observations_loss_apply": "observations"},
+            "LossPDENonStatio": {"initial_condition_apply": "initial_condition"}}
+    files = {"LossODE": "jinns/loss/_LossODE.py", "LossPDEStatio": "jinns/loss/_LossPDE.py", "LossPDENonStatio": "jinns/loss/_LossPDE.py"}
+    ok = True
+    for cls, calls in want.items():
+        f = find_func(parse(repo, files[cls]), "evaluate", cls)
+        for fn, field in calls.items():
+            c = one(calls_to(f, fn), f"{fn} in {cls}.evaluate")
+            masks = [ast.unparse(a) for a in c.args if ast.unparse(a).startswith("_set_derivatives(")]
+            if masks != [f"_set_derivatives(params, self.derivative_keys.{field})"]:
+                ok = False
+        if cls == "LossODE":
+            src = ast.unparse(f)
+            if "_set_derivatives(params, self.derivative_keys.initial_condition)" not in src:
+                ok = False
+    return f"Definition gen_terms_use_their_own_mask : bool := {'true' if ok else 'false'}."
